@@ -403,10 +403,16 @@ class MockProvider(Provider):  # pylint: disable=too-many-instance-attributes,to
     @lock
     def events(self) -> Generator[Event, None, None]:
         self._api("events")
-        while self._cursor < self._latest_cursor:
-            self._cursor += 1
-            pe = self._events[self._cursor]
-            event = self._translate_event(pe, self._cursor)
+        while True:
+            # the decorator only covers the creation of this generator: advance the shared cursor and read the event it
+            # names in one step, so that a second consumer (EventManager.busy) cannot make this one skip an event
+            with self._lock:
+                if self._cursor >= self._latest_cursor:
+                    break
+                self._cursor += 1
+                cursor = self._cursor
+                pe = self._events[cursor]
+            event = self._translate_event(pe, cursor)
             filter_result = self._filter_event(event)
             if filter_result == EventFilter.IGNORE:
                 log.debug("ignore event: %s %s %s", event.path, event.oid, event.exists)
